@@ -175,6 +175,40 @@ func modelFor(o *obligation, terms []string, timeout time.Duration) string {
 	return ""
 }
 
+// decideWithSplit: if the plain query is inconclusive and the obligation has a case split, every case is tried
+// separately; the obligation is discharged when all cases are.
+func decideWithSplit(o *obligation, opts solveOpts) {
+	decide(o, opts)
+	if o.Status != "unknown" || len(o.Splits) < 2 || o.ExpectSat {
+		return
+	}
+	total := o.Secs
+	var outs []string
+	all := true
+	for i, sc := range o.Splits {
+		sub := *o
+		sub.Goal = and(o.Goal, sc)
+		sub.Splits = nil
+		decide(&sub, opts)
+		total += sub.Secs
+		outs = append(outs, fmt.Sprintf("case %d: %s [%s]", i+1, sub.Status, sub.Output))
+		if sub.Status != "discharged" {
+			all = false
+			if sub.Status == "refuted" {
+				o.Status = "refuted"
+				o.Goal = sub.Goal
+				o.Solver = sub.Solver
+			}
+		}
+	}
+	o.Secs = total
+	o.Output += "; case split over the nearest join: " + strings.Join(outs, "; ")
+	if all {
+		o.Status = "discharged"
+		o.Solver = "z3-new(split)"
+	}
+}
+
 func solveAll(obls []*obligation, opts solveOpts) {
 	if opts.workers <= 0 {
 		opts.workers = 8
@@ -186,7 +220,7 @@ func solveAll(obls []*obligation, opts solveOpts) {
 		go func() {
 			defer wg.Done()
 			for o := range ch {
-				decide(o, opts)
+				decideWithSplit(o, opts)
 			}
 		}()
 	}
